@@ -521,7 +521,71 @@ def m10_pow_accept(S):
         S.witness(ctx, ob, f"{eng}_reach_boundary_accept", [acc], T.eq(h.t, target.t))
 
 
-OBLIGATIONS = [m1_fields, m2_order, m3_min_epoch, m4_primary_rewards, m5_secondary, m6_halving, m7_bounding_length, m8_bounding_hash_rate, m9_next_epoch, m10_pow_accept]
+def m11_difficulty_target_duality(S):
+    """difficulty <-> target: both private conversions are floor(2^256 / x) (x = 1 maps to 2^256 - 1), on the real numext U256/U512 code path
+    modelled as integers; the public compact_to_difficulty / difficulty_to_compact are exactly their compositions with the compact codec
+    (decided byte-exactly by C07.k1); conversions are antitone and never zero for a non-zero input"""
+    ob = "C07.m11"
+    from mir2smt import envlib as E
+    from mir2smt.builtins import deref
+    M256 = (1 << 256) - 1
+    for name in ("target_to_difficulty", "difficulty_to_target"):
+        ctx = S.ctx()
+        x = ctx.int("x", "U256"); y = ctx.int("y", "U256")
+        ps = S.run(ctx, name, [ctx.ref_to(x)], nparams=1)
+        ps2 = S.run(ctx, name, [ctx.ref_to(y)], nparams=1)
+        S.prove(ctx, ob, f"{name}_panics_iff_zero", [], T.iff(cond_of(panics(ps)), T.eq(x.t, 0)))
+        v = merged(ps, as_int); w = merged(ps2, as_int)
+        S.prove(ctx, ob, f"{name}_is_floor_of_2_256_over_x", [T.gt(x.t, 0)], T.eq(v, T.ite(T.eq(x.t, 1), M256, T.ediv(1 << 256, x.t))))
+        S.prove(ctx, ob, f"{name}_never_zero", [T.gt(x.t, 0)], T.ge(v, 1))
+        S.prove(ctx, ob, f"{name}_antitone", [T.gt(x.t, 0), T.le(x.t, y.t)], T.ge(v, w), timeout_s=120)
+        S.witness(ctx, ob, f"{name}_reach_power_of_two", [T.eq(x.t, 1 << 200)], T.eq(v, 1 << 56))
+    # public wrappers: composition with the compact codec (environment: symbols for the codec, decided by C07.k1)
+    ctx = S.ctx()
+    c = ctx.int("c", "u32"); tgt = ctx.int("target_of_c", "U256"); ovf = ctx.bool("overflow_of_c")
+    ctx.env = [(E.rx(r"compact_to_target$"), lambda ex, cal, a, d: AggV((tgt, ovf), d))]
+    ps = S.run(ctx, "compact_to_difficulty", [c], nparams=1)
+    S.prove(ctx, ob, "compact_to_difficulty_no_panic", [], T.not_(cond_of(panics(ps))))
+    v = merged(ps, as_int)
+    S.prove(ctx, ob, "compact_to_difficulty_is_dual_of_decoded_target", [],
+            T.eq(v, T.ite(T.or_(T.eq(tgt.t, 0), ovf.t), 0, T.ite(T.eq(tgt.t, 1), M256, T.ediv(1 << 256, tgt.t)))))
+    ctx = S.ctx()
+    dd = ctx.int("d", "U256"); seen = []
+    def t2c(ex, cal, a, d):
+        seen.append((list(ex.pc), deref(ex, a[0]).t))
+        return ex.ctx.int("compact_of_target", "u32")
+    from mir2smt.builtins import deref
+    ctx.env = [(E.rx(r"target_to_compact$"), t2c)]
+    ps = S.run(ctx, "difficulty_to_compact", [dd], nparams=1)
+    S.prove(ctx, ob, "difficulty_to_compact_panics_iff_zero", [], T.iff(cond_of(panics(ps)), T.eq(dd.t, 0)))
+    if not seen:
+        raise Inconclusive("difficulty_to_compact never reaches target_to_compact")
+    for k, (pc, t) in enumerate(seen):
+        S.prove(ctx, ob, f"difficulty_to_compact_call{k}_encodes_the_dual_target", pc, T.eq(t, T.ite(T.eq(dd.t, 1), M256, T.ediv(1 << 256, dd.t))))
+    S.prove(ctx, ob, "difficulty_to_compact_returns_the_codec_result", [cond_of(returns(ps))], T.eq(merged(ps, as_int), ctx.int("compact_of_target", "u32").t))
+    # translator validation on the real numext code: the public pair executed concretely by the MIR interpreter vs the native build
+    nat = S.native_driver
+    if nat is not None:
+        calls, want = [], []
+        for dval in (1, 2, 3, 4, 5, 255, 256, 1 << 32, (1 << 64) - 1, 1 << 64, 3 << 100, (1 << 200) + 12345, 1 << 255, (1 << 256) - 1):
+            c2 = S.ctx()
+            r = returns(S.run(c2, "difficulty_to_compact", [IntV(dval, "U256")], nparams=1))
+            want.append([int(as_int(r[0].value))])
+            calls.append(("difficulty_to_compact", [(dval >> (64 * i)) & U64 for i in range(4)]))
+        for cval in (0, 1, 0x01003456, 0x02000056, 0x03000000, 0x04000000, 0x00923456, 0x01803456, 0x04923456, 0x05009234, 0x20123456, 0x2080_0000, 0x207fffff, 0x1d00ffff, 0x1a08b2a5, 0x21010000, 0xff123456):
+            c2 = S.ctx()
+            r = returns(S.run(c2, "compact_to_difficulty", [IntV(cval, "u32")], nparams=1))
+            dv = int(as_int(r[0].value))
+            want.append([(dv >> (64 * i)) & U64 for i in range(4)])
+            calls.append(("compact_to_difficulty", [cval]))
+        got = nat.batch(calls)
+        bad = [(c_, w, g) for c_, w, g in zip(calls, want, got) if w != g]
+        S.tv_extra = getattr(S, "tv_extra", 0) + len(calls)
+        if bad:
+            raise Inconclusive(f"translator validation (difficulty codec): encoding {bad[0][1]} vs native {bad[0][2]} on {bad[0][0]}")
+
+
+OBLIGATIONS = [m1_fields, m2_order, m3_min_epoch, m4_primary_rewards, m5_secondary, m6_halving, m7_bounding_length, m8_bounding_hash_rate, m9_next_epoch, m10_pow_accept, m11_difficulty_target_duality]
 
 
 def validate(S, native):
